@@ -310,16 +310,17 @@ class C13(Suite):
             raise
         return conn, s
 
-    def issued_for(self, ops, fragment, multiple):
+    def issued_for(self, ops, fragment, multiple, index=0):
         """what the real `issue` yields for these operations: [(index, context hex, request service)] (cached)"""
-        key = json.dumps([ops, fragment, multiple])
+        key = json.dumps([ops, fragment, multiple, index])
         if key not in self.issue_cache:
             conn, s = self.scripted_connector(register_frame(), False, 1.0)
             try:
                 with conn:
                     iss = [(idx, bytes(ctx).hex(), int(req.service))
-                           for idx, ctx, dsc, op, req in conn.issue(self.operations(ops, fragment), fragment=fragment,
-                                                                    multiple=multiple, timeout=1.0)]
+                           for idx, ctx, dsc, op, req in conn.issue(self.operations(ops, fragment), index=index,
+                                                                    fragment=fragment, multiple=multiple,
+                                                                    timeout=1.0)]
             finally:
                 conn.close()
                 s.close()
@@ -327,10 +328,11 @@ class C13(Suite):
         return self.issue_cache[key]
 
     # ---------------------------------------------------------------------------------------- script cases
-    def script_frames(self, kinds, fragment, multiple):
-        """the reply frames a well-behaved peer sends for scripted operations of these kinds"""
+    def script_frames(self, kinds, fragment, multiple, index=0):
+        """the reply frames a well-behaved peer sends for scripted operations of these kinds (it echoes the 8 bytes
+        of sender context that are on the wire)"""
         ops = [[k, op_tag(k, j)] for j, k in enumerate(kinds)]
-        issued = self.issued_for(ops, fragment, multiple)
+        issued = self.issued_for(ops, fragment, multiple, index)
         frames, j = [], 0
         while j < len(issued):
             idx, ctx, _ = issued[j]
@@ -341,13 +343,14 @@ class C13(Suite):
             j = members[-1] + 1
         return ops, frames
 
-    def script_case(self, rng, kinds, fragment, multiple, api, depth, mutation=None):
-        ops, frames = self.script_frames(kinds, fragment, multiple)
+    def script_case(self, rng, kinds, fragment, multiple, api, depth, mutation=None, index=0):
+        ops, frames = self.script_frames(kinds, fragment, multiple, index)
         reg = {"cmd": 0x65, "status": 0, "ctx": "", "cip": None, "multi": False, "for": []}
         if mutation:
             frames, reg = self.mutate(rng, mutation, frames, reg)
         return {"kind": "script", "api": api, "depth": depth, "multiple": multiple, "fragment": fragment,
-                "ops": ops, "reg": reg, "frames": frames, "mut": mutation or "none", "k": None, "mode": "eof"}
+                "ops": ops, "reg": reg, "frames": frames, "mut": mutation or "none", "k": None, "mode": "eof",
+                "index": index}
 
     MUTATIONS = ["swap", "dup", "drop", "ctx", "svc", "status", "cmd", "empty", "garbage", "extra", "regstatus",
                  "regcmd", "count"]
@@ -425,7 +428,7 @@ class C13(Suite):
     KIND_POOL = ["r", "r", "r", "w", "ga", "sa", "re", "r6"]
 
     def cases(self, tier, rng):
-        script = list(self.script_cases(tier, rng))
+        script = list(self.script_cases(tier, rng)) + list(self.index_cases(tier, rng))
         self.precompute(script)             # scripted exchanges are independent: run them on a few processes
         yield from script
         # 4. the real simulator behind the relay
@@ -433,10 +436,26 @@ class C13(Suite):
         # 5. proxy and poll
         yield from self.proxy_cases(tier, rng)
 
+    def index_cases(self, tier, rng):
+        """transaction indices around 10**8 (`pipeline( ..., index=N )`, a long-running client's running count): the
+        sender context on the wire holds only 8 bytes, so nine-digit indices collide there; with a reply lost,
+        duplicated or overtaken the client must still not hand a reply to another request"""
+        quick = tier == "quick"
+        for rep in range(2 if quick else 20):
+            for index in (99999996, 99999999, 100000000, 100000003, 123456789):
+                for how in (None, "drop", "drop", "dup", "swap"):
+                    n = rng.choice([4, 5, 6, 8])
+                    kinds = ["r"] * n if rng.random() < 0.7 else [rng.choice(["r", "w", "r6"]) for _ in range(n)]
+                    api = rng.choice(["pipe", "pipe", "sync"])
+                    case = self.script_case(rng, kinds, False, 0, api, 0 if api == "sync" else rng.choice([1, 2, 4]),
+                                            how, index=index)
+                    yield dict(case, k=None, mode=rng.choice(["eof", "quiet"]) if how else "eof")
+
     def search_cases(self, tier, rng):
         """failing-input search: a fresh quick-sized draw (run in-process, the time limit applies between cases)"""
         self.precomputed = {}
         yield from self.script_cases("quick", rng)
+        yield from self.index_cases("quick", rng)
         yield from self.relay_cases("quick", rng)
         yield from self.proxy_cases("quick", rng)
 
@@ -558,11 +577,11 @@ class C13(Suite):
                 elif direction == "s2c" or exi == 0:
                     offs = range(total + 1)                       # EVERY cut offset
                 else:
-                    offs = sorted(set(rng.sample(range(total + 1), 200)) | set(ends))
+                    offs = sorted(set(rng.sample(range(total + 1), min(200, total + 1))) | set(ends))
                 for k in offs:
                     yield dict(base, dir=direction, k=k, mode="eof", chop=rng.choice([None, None, 5]))
                 qn = 5 if quick else 12
-                for k in sorted(rng.sample(range(total + 1), qn)):
+                for k in sorted(rng.sample(range(total + 1), min(qn, total + 1))):
                     yield dict(base, dir=direction, k=k, mode="quiet")
             nframes = len(net.frame_ends(s2c))
             for j in range(1, nframes):
@@ -705,11 +724,11 @@ class C13(Suite):
             data = reg + b"".join(frames)
             if c["k"] is not None:
                 data = data[:c["k"]]
-            issued = self.issued_for(c["ops"], c["fragment"], c["multiple"])
+            issued = self.issued_for(c["ops"], c["fragment"], c["multiple"], c.get("index", 0))
             api, depth = self.api_depth(c)
             evs = ([data.hex()] if data else []) + ["E" if c["mode"] == "eof" else "Q"]
             spec = f" {len(data)}:{(reg + b''.join(frames)).hex()}" if self.spec_applies(c) else ""
-            return f"crx {api} {depth} 0 {self.issued_token(issued)} {','.join(evs)}{spec}"
+            return f"crx {api} {depth} {c.get('index', 0)} {self.issued_token(issued)} {','.join(evs)}{spec}"
         obs = c.get("_obs")
         if not obs:
             return "crx unobserved"
@@ -758,7 +777,7 @@ class C13(Suite):
         right-hand sides with the model run"""
         if c["kind"] == "relay":       # ... as far as the server answered at all (a request stream cut inside Register)
             return bool(c.get("_obs")) and len(c["_obs"]["server"]) >= 2 * 28
-        return c["kind"] == "script" and c["mut"] in C13.SERVED_MUTATIONS
+        return c["kind"] == "script" and c["mut"] in C13.SERVED_MUTATIONS and not c.get("index")
 
     def impl_script(self, c):
         pre = getattr(self, "precomputed", None)
@@ -781,7 +800,7 @@ class C13(Suite):
             return "connect:" + exc_class(exc, connecting=True)
         try:
             ex = Exchange().run(conn, c["api"], self.operations(c["ops"], c["fragment"]), c["depth"], c["multiple"],
-                                c["fragment"], timeout)
+                                c["fragment"], timeout, index=c.get("index", 0))
         finally:
             conn.close()
             s.close()
@@ -1081,7 +1100,8 @@ class C13(Suite):
         out = out.split("#")[0]
         end = out.split(";")[-1] if ";" in out and "|" not in out else ("connect" if out.startswith("connect") else "multi")
         if c["kind"] == "script":
-            return f"script:{c['api']}:{c['mode']}:{c['mut']}:{self.cut_position(c)}:{end}"
+            big = ":index>=1e8" if c.get("index", 0) + len(c["ops"]) > 10 ** 8 else ":index" if c.get("index") else ""
+            return f"script{big}:{c['api']}:{c['mode']}:{c['mut']}:{self.cut_position(c)}:{end}"
         if c["kind"] == "relay":
             return f"relay:{c['dir']}:{c['mode']}:{'multi' if c['multiple'] else 'single'}:{end}"
         toks = out.split("|")
@@ -1113,7 +1133,8 @@ class C13(Suite):
         if c["mut"] == "none" and len(c["ops"]) > 1:
             kinds = [k for k, _ in c["ops"]][:-1]
             import random
-            small = self.script_case(random.Random(0), kinds, c["fragment"], c["multiple"], c["api"], c["depth"])
+            small = self.script_case(random.Random(0), kinds, c["fragment"], c["multiple"], c["api"], c["depth"],
+                                     index=c.get("index", 0))
             reg, frames = self.script_stream(small)
             total = len(reg) + sum(map(len, frames))
             if c["k"] is None or c["k"] <= total:
